@@ -910,6 +910,69 @@ theorem C09_sens_history (d : Decl τ) (pub : List τ) (ops : List (SensOp τ)) 
     | error e => rw [hs] at h; cases h
     | ok s1 => rw [hs] at h; simp only [] at h ⊢; exact ih s1 h
 
+/-! ### a simulation leaves the fixed parameters alone -/
+
+theorem mask_bufferAfter (m : List (Bool × α)) : ∀ ps, (bufferAfter m ps).map (·.1) = m.map (·.1) := by
+  induction m with
+  | nil => intro ps; rfl
+  | cons b r ih =>
+    intro ps
+    obtain ⟨f, v⟩ := b
+    cases f with
+    | true => simp [bufferAfter, ih]
+    | false => cases ps <;> simp [bufferAfter, ih]
+
+theorem nFree_bufferAfter (m : List (Bool × α)) (ps : List α) : nFree (bufferAfter m ps) = nFree m := by
+  have h : ∀ l : List (Bool × α), nFree l = ((l.map (·.1)).filter (fun b => !b)).length := by
+    intro l; simp [nFree, List.filter_map, Function.comp_def]
+  rw [h, h, mask_bufferAfter]
+
+theorem free_bufferAfter (names : List τ) (m : List (Bool × α)) (ps : List α) :
+    Reduced.free ({ names := names, fixed := some (bufferAfter m ps) } : Reduced τ α) =
+      Reduced.free ({ names := names, fixed := some m } : Reduced τ α) := by
+  simp only [Reduced.free]
+  induction m generalizing names ps with
+  | nil => simp [bufferAfter]
+  | cons b r ih =>
+    obtain ⟨f, v⟩ := b
+    cases names with
+    | nil => simp
+    | cons n ns =>
+      cases f with
+      | true => simp [bufferAfter, List.filter_cons, ih ns ps]
+      | false => cases ps <;> simp [bufferAfter, List.filter_cons, ih ns]
+
+/-- **A simulation does not change what is fixed.** `simulate` writes the given entries into the
+    stored value buffer, but only at the free positions: afterwards the same parameters are fixed,
+    at the same values, so the next vector is routed exactly as it would have been before — for
+    every mask, every simulated vector `ps` and every next vector `qs` of the free length. -/
+theorem C09_simulate_keeps_fixed (m : List (Bool × α)) : ∀ (ps qs : List α), qs.length = nFree m →
+    fillFree (bufferAfter m ps) qs = fillFree m qs := by
+  induction m with
+  | nil => intro ps qs _; rfl
+  | cons b r ih =>
+    intro ps qs hq
+    obtain ⟨f, v⟩ := b
+    cases f with
+    | true =>
+      have hq' : qs.length = nFree r := by simpa [nFree] using hq
+      simp [bufferAfter, fillFree, ih ps qs hq']
+    | false =>
+      cases qs with
+      | nil => simp [nFree] at hq
+      | cons q qs' =>
+        have hq' : qs'.length = nFree r := by simpa [nFree] using hq
+        cases ps with
+        | nil => simp [bufferAfter, fillFree, ih [] qs' hq']
+        | cons p ps' => simp [bufferAfter, fillFree, ih ps' qs' hq']
+
+theorem enableSens_bufferAfter (names : List τ) (m : List (Bool × α)) (ps : List α) (T : Tables τ)
+    (pub : List τ) :
+    Reduced.enableSens false ({ names := names, fixed := some (bufferAfter m ps) } : Reduced τ α) T pub =
+      Reduced.enableSens false ({ names := names, fixed := some m } : Reduced τ α) T pub := by
+  unfold Reduced.enableSens
+  rw [free_bufferAfter]
+
 /-- **Reduced model: the request follows the mask through any history.** After any sequence of
     enabling, disabling, fixing / releasing parameters and selecting outputs, the solver of the
     wrapped model is asked for the sensitivities of exactly the currently free parameters when
@@ -933,6 +996,19 @@ theorem redStep_inv (d : Decl τ) (pub : List τ) (s s' : RedState τ α) (op : 
   | disable =>
     simp only [redStep] at h; injection h with h; subst h
     exact ⟨fun h => by simp at h, fun _ => rfl⟩
+  | simulate ps =>
+    simp only [redStep] at h
+    cases hv : Reduced.fullVector ({ names := pub, fixed := s.fixed } : Reduced τ α) ps with
+    | error e => rw [hv] at h; cases h
+    | ok v =>
+      rw [hv] at h; injection h with h; subst h
+      refine ⟨fun hon => ?_, fun hoff => hi.2 hoff⟩
+      have h1 := hi.1 hon
+      cases hf : s.fixed with
+      | none => simp only [hf, Option.map_none] at h1 ⊢; exact h1
+      | some m =>
+        simp only [hf, Option.map_some] at h1 ⊢
+        rw [enableSens_bufferAfter]; exact h1
   | fix nf =>
     simp only [redStep] at h
     by_cases hon : s.sensOn = true
